@@ -15,6 +15,7 @@ Fixpoint gift_free (o : op) : bool :=
   | Erc20Burn _ _ _ => false
   | ConvertCoinToEvm _ _ _ to | SendToEvm _ _ _ to => negb (Nat.eqb to Module)
   | Framed _ o' => gift_free o'
+  | Seq o1 o2 => gift_free o1 && gift_free o2
   | _ => true
   end.
 
@@ -265,6 +266,7 @@ Proof.
     + intros d0 _. rewrite B. reflexivity.
   - discriminate.
   - discriminate.
+  - discriminate.
 Qed.
 
 Lemma step_exact s o : Exact s -> gift_free o = true -> Exact (fst (step s o)).
@@ -273,7 +275,11 @@ Proof.
     try (rewrite step_unframed by exact Logic.I;
          match goal with |- context [exec ?s0 ?o] => destruct (exec s0 o) as [s'|] eqn:E end;
          [exact (exec_exact _ _ _ X G E) | exact X]).
-  simpl. match goal with f : frame |- _ => destruct f end; simpl; try exact X; apply IHo; assumption.
+  - simpl. match goal with f : frame |- _ => destruct f end; simpl; try exact X; apply IHo; assumption.
+  - simpl in G. apply andb_true_iff in G as [G1 G2]. simpl.
+    destruct (snd (step s o1)); [|exact X].
+    destruct (snd (step (fst (step s o1)) o2)); [|exact X]. simpl.
+    apply IHo2; [apply IHo1; assumption | exact G2].
 Qed.
 
 Lemma init_exact : Exact init.
